@@ -106,6 +106,26 @@ func (e *Encoder) ComputeParityData() error {
 }
 
 func (e *Encoder) Write(indexPath string) error {
+	// TODO: Sanity-check indexPath.
+	ext := path.Ext(indexPath)
+	base := indexPath[:len(indexPath)-len(ext)]
+
+	// Refuse to overwrite an input file with the index file or
+	// with a parity volume.
+	realIndexPath := base + ".par"
+	outputPaths := []string{realIndexPath}
+	for i := range e.parityData {
+		// TODO: Handle more than 99 parity files.
+		outputPaths = append(outputPaths, fmt.Sprintf("%s.p%02d", base, i+1))
+	}
+	for _, filePath := range e.filePaths {
+		for _, outputPath := range outputPaths {
+			if filepath.Clean(filePath) == filepath.Clean(outputPath) {
+				return errors.New("input file would be overwritten: " + filePath)
+			}
+		}
+	}
+
 	var entries []fileEntry
 	var setHashInput []byte
 	for i, k := range e.filePaths {
@@ -142,11 +162,6 @@ func (e *Encoder) Write(indexPath string) error {
 		return err
 	}
 
-	// TODO: Sanity-check indexPath.
-	ext := path.Ext(indexPath)
-	base := indexPath[:len(indexPath)-len(ext)]
-
-	realIndexPath := base + ".par"
 	err = e.fileIO.WriteFile(realIndexPath, indexVolumeBytes)
 	e.delegate.OnVolumeFileWrite(0, len(e.parityData), realIndexPath, len(indexVolume.data), len(indexVolumeBytes), err)
 	if err != nil {
@@ -162,8 +177,7 @@ func (e *Encoder) Write(indexPath string) error {
 			return err
 		}
 
-		// TODO: Handle more than 99 parity files.
-		volumePath := fmt.Sprintf("%s.p%02d", base, i+1)
+		volumePath := outputPaths[i+1]
 		err = e.fileIO.WriteFile(volumePath, volBytes)
 		e.delegate.OnVolumeFileWrite(i+1, len(e.parityData), volumePath, len(vol.data), len(volBytes), err)
 		if err != nil {
